@@ -150,17 +150,17 @@ impl TypedProgram {
         // Sort by the meta information of the const defs so we iterate them in the order that
         // they occur in the source code
         sorted_const_defs.sort_by_key(|(_name, const_def)| const_def.meta);
-        for (const_name, const_def) in sorted_const_defs {
+        for (const_name, const_def) in sorted_const_defs.iter() {
             if let Type::Unsigned(UnsignedNumType::Usize) = const_def.ty {
                 if let ConstExpr(ConstExprEnum::ExternalValue { party, identifier }, _) =
                     &const_def.value
                 {
                     let identifier = format!("{party}::{identifier}");
-                    const_sizes.insert(const_name.clone(), *const_sizes.get(&identifier).unwrap());
+                    const_sizes.insert(const_name.to_string(), *const_sizes.get(&identifier).unwrap());
                 }
                 let n = resolve_const_expr_unsigned(&const_def.value, &consts_unsigned);
-                const_sizes.insert(const_name.clone(), n as usize);
-                consts_unsigned.insert(const_name.clone(), n);
+                const_sizes.insert(const_name.to_string(), n as usize);
+                consts_unsigned.insert(const_name.to_string(), n);
             }
         }
 
@@ -225,83 +225,41 @@ impl TypedProgram {
             cache_gates: opts.optimize_duplicate_gates,
         };
         let mut circuit = CircuitBuilder::new(input_gates, const_sizes.clone(), builder_opts);
-        for (const_name, const_def) in self.const_defs.iter() {
-            let ConstExpr(expr, _) = &const_def.value;
-            match expr {
-                ConstExprEnum::True => env.let_in_current_scope(const_name.clone(), vec![1]),
-                ConstExprEnum::False => env.let_in_current_scope(const_name.clone(), vec![0]),
-                ConstExprEnum::NumUnsigned(n, ty) => {
-                    let ty = Type::Unsigned(*ty);
-                    let mut bits =
-                        Vec::with_capacity(ty.size_in_bits_for_defs(self, circuit.const_sizes()));
-                    unsigned_to_bits(
-                        *n,
-                        ty.size_in_bits_for_defs(self, circuit.const_sizes()),
-                        &mut bits,
+        // Constants are bound in the order in which they occur in the source code, so that a
+        // constant can refer to the ones defined before it.
+        for (const_name, const_def) in sorted_const_defs.iter() {
+            let size = const_def
+                .ty
+                .size_in_bits_for_defs(self, circuit.const_sizes());
+            let bits: Vec<usize> = match &const_def.ty {
+                Type::Unsigned(_) => {
+                    let wrap = |n: u64| if size < 64 { n & ((1 << size) - 1) } else { n };
+                    let n = resolve_const_expr_unsigned_wrapping(
+                        &const_def.value,
+                        &consts_unsigned,
+                        &wrap,
                     );
-                    let bits = bits.into_iter().map(|b| b as usize).collect();
-                    env.let_in_current_scope(const_name.clone(), bits);
+                    consts_unsigned.insert(const_name.to_string(), n);
+                    unsigned_as_wires(n, size)
                 }
-                ConstExprEnum::NumSigned(n, ty) => {
-                    let ty = Type::Signed(*ty);
-                    let mut bits =
-                        Vec::with_capacity(ty.size_in_bits_for_defs(self, circuit.const_sizes()));
-                    signed_to_bits(
-                        *n,
-                        ty.size_in_bits_for_defs(self, circuit.const_sizes()),
-                        &mut bits,
-                    );
-                    let bits = bits.into_iter().map(|b| b as usize).collect();
-                    env.let_in_current_scope(const_name.clone(), bits);
+                Type::Signed(_) => {
+                    let wrap = |n: i64| (n << (64 - size)) >> (64 - size);
+                    let n =
+                        resolve_const_expr_signed_wrapping(&const_def.value, &consts_signed, &wrap);
+                    consts_signed.insert(const_name.to_string(), n);
+                    signed_as_wires(n, size)
                 }
-                ConstExprEnum::ExternalValue { party, identifier } => {
-                    let bits = env.get(&format!("{party}::{identifier}")).unwrap();
-                    env.let_in_current_scope(const_name.clone(), bits);
-                }
-                ConstExprEnum::ConstExprIdent(identifier) => {
-                    let bits = env.get(identifier).unwrap();
-                    env.let_in_current_scope(const_name.clone(), bits);
-                }
-                ConstExprEnum::Max(_)
-                | ConstExprEnum::Min(_)
-                | ConstExprEnum::Add(_, _)
-                | ConstExprEnum::Sub(_, _) => {
-                    if let Type::Unsigned(_) = const_def.ty {
-                        let result =
-                            resolve_const_expr_unsigned(&const_def.value, &consts_unsigned);
-                        let mut bits = Vec::with_capacity(
-                            const_def
-                                .ty
-                                .size_in_bits_for_defs(self, circuit.const_sizes()),
-                        );
-                        unsigned_to_bits(
-                            result,
-                            const_def
-                                .ty
-                                .size_in_bits_for_defs(self, circuit.const_sizes()),
-                            &mut bits,
-                        );
-                        let bits = bits.into_iter().map(|b| b as usize).collect();
-                        env.let_in_current_scope(const_name.clone(), bits);
-                    } else {
-                        let result = resolve_const_expr_signed(&const_def.value, &consts_signed);
-                        let mut bits = Vec::with_capacity(
-                            const_def
-                                .ty
-                                .size_in_bits_for_defs(self, circuit.const_sizes()),
-                        );
-                        signed_to_bits(
-                            result,
-                            const_def
-                                .ty
-                                .size_in_bits_for_defs(self, circuit.const_sizes()),
-                            &mut bits,
-                        );
-                        let bits = bits.into_iter().map(|b| b as usize).collect();
-                        env.let_in_current_scope(const_name.clone(), bits);
+                _ => match &const_def.value.0 {
+                    ConstExprEnum::True => vec![1],
+                    ConstExprEnum::False => vec![0],
+                    ConstExprEnum::ExternalValue { party, identifier } => {
+                        env.get(&format!("{party}::{identifier}")).unwrap()
                     }
-                }
-            }
+                    ConstExprEnum::ConstExprIdent(identifier) => env.get(identifier).unwrap(),
+                    expr => panic!("Not a const expr of type {}: {expr:?}", const_def.ty),
+                },
+            };
+            env.let_in_current_scope(const_name.to_string(), bits);
         }
         let output_gates = compile_block(&fn_def.body, self, &mut env, &mut circuit);
         Ok((circuit.build(output_gates), fn_def, const_sizes))
@@ -309,53 +267,77 @@ impl TypedProgram {
 }
 
 macro_rules! make_resolve_const_function {
-    ($fn_ident:ident, $const_ty:ty) => {
+    ($fn_ident:ident, $fn_ident_wrapping:ident, $const_ty:ty) => {
+        #[allow(dead_code)]
         pub(crate) fn $fn_ident(
-            ConstExpr(expr, _): &ConstExpr,
+            expr: &ConstExpr,
             consts_unsigned: &HashMap<String, $const_ty>,
         ) -> $const_ty {
-            match expr {
+            $fn_ident_wrapping(expr, consts_unsigned, &|n| n)
+        }
+
+        /// Like the function above, but applies `wrap` (reduction to the range of the type of the
+        /// constant) to the value of every sub-expression.
+        pub(crate) fn $fn_ident_wrapping(
+            ConstExpr(expr, _): &ConstExpr,
+            consts_unsigned: &HashMap<String, $const_ty>,
+            wrap: &dyn Fn($const_ty) -> $const_ty,
+        ) -> $const_ty {
+            wrap(match expr {
                 ConstExprEnum::NumUnsigned(n, _) => *n as $const_ty,
+                ConstExprEnum::NumSigned(n, _) => *n as $const_ty,
                 ConstExprEnum::ExternalValue { party, identifier } => *consts_unsigned
                     .get(&format!("{party}::{identifier}"))
                     .unwrap(),
                 ConstExprEnum::Max(args) => {
-                    let mut result = 0;
-                    for arg in args {
-                        result = max(result, $fn_ident(arg, consts_unsigned));
-                    }
-                    result
+                    let mut args = args
+                        .iter()
+                        .map(|arg| $fn_ident_wrapping(arg, consts_unsigned, wrap));
+                    let first = args.next().unwrap_or(0);
+                    args.fold(first, max)
                 }
                 ConstExprEnum::Min(args) => {
-                    let mut result = <$const_ty>::MAX;
-                    for arg in args {
-                        result = min(result, $fn_ident(arg, consts_unsigned));
-                    }
-                    result
+                    let mut args = args
+                        .iter()
+                        .map(|arg| $fn_ident_wrapping(arg, consts_unsigned, wrap));
+                    let first = args.next().unwrap_or(<$const_ty>::MAX);
+                    args.fold(first, min)
                 }
                 ConstExprEnum::Add(lhs, rhs) => {
                     // TODO it is probably more sensible to return an error instead of wrapping.
                     // This would require changing this and calling functions to be fallible
                     // issue #227 (robinhundt 07.08.25)
-                    $fn_ident(lhs, consts_unsigned).wrapping_add($fn_ident(rhs, consts_unsigned))
+                    $fn_ident_wrapping(lhs, consts_unsigned, wrap)
+                        .wrapping_add($fn_ident_wrapping(rhs, consts_unsigned, wrap))
                 }
-                ConstExprEnum::Sub(lhs, rhs) => {
-                    $fn_ident(lhs, consts_unsigned).wrapping_sub($fn_ident(rhs, consts_unsigned))
-                }
+                ConstExprEnum::Sub(lhs, rhs) => $fn_ident_wrapping(lhs, consts_unsigned, wrap)
+                    .wrapping_sub($fn_ident_wrapping(rhs, consts_unsigned, wrap)),
                 ConstExprEnum::ConstExprIdent(ident) => *consts_unsigned
                     .get(ident)
                     .expect("Identifier existence checked during type cheking"),
-                ConstExprEnum::True | ConstExprEnum::False | ConstExprEnum::NumSigned(_, _) => {
-                    panic!("Not a signed const expr: {expr:?}")
+                ConstExprEnum::True | ConstExprEnum::False => {
+                    panic!("Not a numeric const expr: {expr:?}")
                 }
-            }
+            })
         }
     };
 }
 
-make_resolve_const_function!(resolve_const_expr_usize, usize);
-make_resolve_const_function!(resolve_const_expr_unsigned, u64);
-make_resolve_const_function!(resolve_const_expr_signed, i64);
+make_resolve_const_function!(
+    resolve_const_expr_usize,
+    resolve_const_expr_usize_wrapping,
+    usize
+);
+make_resolve_const_function!(
+    resolve_const_expr_unsigned,
+    resolve_const_expr_unsigned_wrapping,
+    u64
+);
+make_resolve_const_function!(
+    resolve_const_expr_signed,
+    resolve_const_expr_signed_wrapping,
+    i64
+);
 
 fn compile_block(
     stmts: &[TypedStmt],
